@@ -12,6 +12,10 @@ import Drv.C16
 import Drv.C17
 import Drv.C05
 import Drv.KvBlk
+import Drv.C07
+import Drv.C08
+import Drv.WalW
+import Drv.Links
 /-! `drv <model>`: executable models behind a one-line-in, one-line-out protocol. -/
 def main (args : List String) : IO UInt32 := do
   match args with
@@ -32,4 +36,8 @@ def main (args : List String) : IO UInt32 := do
   | ["kvblk-trace"] => Drv.KvBlk.main true; return 0
   | ["c05"] => Drv.C05.main; return 0
   | ["c04"] => Drv.C05.main; return 0
+  | ["c07"] => Drv.pureLoop Drv.C07.step; return 0
+  | ["c08"] => Drv.loop Drv.C08.step (Drv.C08.init, []); return 0
+  | ["walw"] => Drv.WalW.main; return 0
+  | ["links"] => Drv.Links.main; return 0
   | _ => IO.eprintln "usage: drv <model>"; return 2
